@@ -33,7 +33,7 @@ for pid, entries in TABLE.items():
             if os.path.exists(f):
                 shutil.copy(f, os.path.join(d, "demo.%s" % ext))
         json.dump({"property": ent.get("property", pid), "needs_to_manifest": ent["needs"],
-                   "origin": ("independent sub-agent, round 5 (one change per property for four properties, told that the obvious places had been examined and to look for feature interactions, boundary values, rarely used overloads), given the texts of its four properties and a scratch worktree" if rnd in ("r5", "r6", "r7", "r8") else "independent sub-agent, round 4 (four changes confined to library files no earlier change had touched), given the texts of the twenty properties and a scratch worktree" if rnd == "r4" else "independent sub-agent, round %s (three changes per property, obvious candidates excluded%s), given only the property text and a scratch worktree" % (rnd[1:], "; at least one made of two cooperating edits" if rnd == "r3" else "")),
+                   "origin": ("independent sub-agent, round 5 (one change per property for four properties, told that the obvious places had been examined and to look for feature interactions, boundary values, rarely used overloads), given the texts of its four properties and a scratch worktree" if rnd in ("r5", "r6", "r7", "r8", "r9") else "independent sub-agent, round 4 (four changes confined to library files no earlier change had touched), given the texts of the twenty properties and a scratch worktree" if rnd == "r4" else "independent sub-agent, round %s (three changes per property, obvious candidates excluded%s), given only the property text and a scratch worktree" % (rnd[1:], "; at least one made of two cooperating edits" if rnd == "r3" else "")),
                    "confirmed": "tools/confirm_seed.sh in the sub-agent's worktree: " + m.group(3).strip(),
                    "ran": ["tools/eval_mut%s.sh (VERIF_REPO=<worktree with the patch>) quick checks" % ("3" if rnd == "r3" else "2")],
                    "caught_by": caught, "not_reported_by": sorted(set(missed) - set(caught)),
